@@ -123,9 +123,9 @@ func checkCombinators(c *core.Ctx, pkg *packages.Package, T string) {
 			}
 			return sym.Add(sym.Mul(D("p0", i), coef(1)), sym.Mul(D("p1", i), coef(2)))
 		}
-		N := sym.Fn("nvars", symL("r"))
+		N := sym.Fn("nvars", symL("r0"))
 		Nm1 := sym.Sub(N, sym.One())
-		order := sym.Fn("order", symL("r"))
+		order := sym.Fn("order", symL("r0"))
 		// classify paths by order
 		seen := map[string]bool{}
 		for _, p := range paths {
@@ -291,7 +291,7 @@ func checkHessianEvents(p *vn.Path, hess []vn.Event, expH func(i, j *sym.Term) *
 	if m.Recv != p.Recv || len(m.Loops) != 2 || !sym.Equal(m.Idx[0], jv) || !sym.Equal(m.Idx[1], iv) {
 		return false, "mirror statement does not write H[j][i]"
 	}
-	if !sym.Equal(m.V[0], sym.Fn("H", symL("r"), iv, jv)) {
+	if !sym.Equal(m.V[0], sym.Fn("H", symL("r0"), iv, jv)) {
 		return false, "mirror statement does not copy H[i][j]"
 	}
 	return true, ""
